@@ -3,13 +3,24 @@
    lifecycle consequences: a registration is reachable, a duplicate registration is rejected
    before the tree is touched, a strict URL needs a live route.
    - Part A: find / find_chain versus [npat] (needs only the pattern invariant [pat_ok]);
-   - Part C: registration, duplicate rejection, removal, strict URL;
-   - Part B: patterns are unique in reachable trees (last).
+   - Part C: registration (the node updated is in the new tree and spells the pattern),
+     duplicate rejection (never a runtime fault: checkAmbiguous and Split do not panic),
+     strict URL, removal ([remove_in] walks like [find] and changes one node: [one_changed]);
+     the statements "by pattern" are proved under [pattern_once p root] (the number of nodes
+     below the root spelling [p], a computable [cnt], is at most 1);
+   - Part B: [pattern_once] is NOT an invariant of reachable trees: the history
+         "/{a", "/{a{b}x", "/{a{c}y"
+     yields two sibling literal nodes "{a" (the split of "{a{b}x" at its second '{' creates the
+     second one); registering GET "/{a" again is then accepted, and removing "/{a" leaves a node
+     "/{a" that still answers GET.  The four refutations are at the end of the file.  Uniqueness
+     for histories whose patterns pass a well-formedness check (TreeNames.pat_wf, Table.tokens)
+     is not proved here.
    Theorems are re-exported by Props/C03find.v. *)
 From Coq Require Import String.
 From Mux Require Import Model.Bytes Model.Regex Model.Context Model.Syntax Model.Tree
   Proofs.BytesFacts Proofs.MatchSound Proofs.Misc2 Proofs.ParseTotal Proofs.TreeSafe Proofs.TreeAllow
   Proofs.TreeText Proofs.TreeOnion.
+From Mux Require Proofs.TreeNames Spec.Table.
 
 (* ================================================================ definitions *)
 
@@ -91,7 +102,7 @@ Qed.
 Lemma skipn_len_app : forall (a b : bytes), skipn (length a) (a ++ b) = b.
 Proof. intros a b. now rewrite skipn_app, skipn_all, Nat.sub_diag. Qed.
 
-Theorem C03_find_sound : forall fuel n q r, all_nodes pat_ok n -> find fuel n q = Some r ->
+Theorem C03_find_sound_l : forall fuel n q r, all_nodes pat_ok n -> find fuel n q = Some r ->
   desc n r /\ npat r = npat n ++ q.
 Proof.
   induction fuel as [|f IH]; intros n q r Hn H; [discriminate|].
@@ -114,7 +125,7 @@ Proof.
   exact (Hgo _ (incl_refl _) H).
 Qed.
 
-Theorem C03_find_complete : forall fuel n r, all_nodes pat_ok n -> (height n <= fuel)%nat -> desc n r ->
+Theorem C03_find_complete_l : forall fuel n r, all_nodes pat_ok n -> (height n <= fuel)%nat -> desc n r ->
   exists r', find fuel n (skipn (length (npat n)) (npat r)) = Some r' /\ npat r' = npat r.
 Proof.
   induction fuel as [|f IH]; intros n r Hn Hh D; [rewrite height_eq in Hh; lia|].
@@ -134,7 +145,7 @@ Proof.
     - destruct (has_prefix q (sval (nseg x))) eqn:HP.
       + destruct (find f x (skipn (length (sval (nseg x))) q)) as [r1|] eqn:F.
         * exists r1. split; [reflexivity|].
-          destruct (C03_find_sound _ _ _ _ Ax F) as [_ P].
+          destruct (C03_find_sound_l _ _ _ _ Ax F) as [_ P].
           rewrite P, Px, <- app_assoc. f_equal. symmetry. now apply has_prefix_skipn.
         * destruct Hc as [->|Hc]; [|exact (IHc Hin' Hc)]. exfalso.
           destruct Hd as [->|Dch]; [apply Nq; rewrite Px in Hq; now apply app_inv_head in Hq|].
@@ -192,21 +203,21 @@ Proof.
   exact (Hgo _ (incl_refl _) H).
 Qed.
 
-Theorem C10_find_chain_sound : forall fuel n q chain, all_nodes pat_ok n ->
+Theorem C10_find_chain_sound_l : forall fuel n q chain, all_nodes pat_ok n ->
   find_chain fuel n q = Some chain ->
   chain <> [] /\ linked n chain /\ desc n (last chain n) /\ npat (last chain n) = npat n ++ q.
 Proof.
   intros fuel n q chain Hn H. destruct (find_chain_linked _ _ _ _ H) as [Hne Hl].
   split; [exact Hne|]. split; [exact Hl|].
-  apply (C03_find_sound fuel n q); [exact Hn|]. now rewrite find_chain_find, H.
+  apply (C03_find_sound_l fuel n q); [exact Hn|]. now rewrite find_chain_find, H.
 Qed.
 
-Theorem C10_find_chain_complete : forall fuel n r, all_nodes pat_ok n -> (height n <= fuel)%nat ->
+Theorem C10_find_chain_complete_l : forall fuel n r, all_nodes pat_ok n -> (height n <= fuel)%nat ->
   desc n r ->
   exists chain, find_chain fuel n (skipn (length (npat n)) (npat r)) = Some chain /\
     npat (last chain n) = npat r.
 Proof.
-  intros fuel n r Hn Hh D. destruct (C03_find_complete fuel n r Hn Hh D) as [r' [F P]].
+  intros fuel n r Hn Hh D. destruct (C03_find_complete_l fuel n r Hn Hh D) as [r' [F P]].
   rewrite find_chain_find in F.
   destruct (find_chain fuel n (skipn (length (npat n)) (npat r))) as [chain|]; [|discriminate F].
   injection F as <-. exists chain. now split.
@@ -381,7 +392,7 @@ Proof.
   exists x0, x2. split; [reflexivity|]. split; [exact E2 | reflexivity].
 Qed.
 
-Theorem C03_add_registers : forall t p h mws ms t', tree_pat_ok t -> tree_hs_ok t ->
+Theorem C03_add_registers_l : forall t p h mws ms t', tree_pat_ok t -> tree_hs_ok t ->
   tree_add t p h mws ms = Ok t' ->
   exists n, desc (troot t') n /\ npat n = p /\
     (forall m, In m (match ms with [] => any_methods | _ => ms end) -> ahas m (nhandlers n) = true) /\
@@ -464,7 +475,7 @@ Proof.
 Qed.
 
 (* ---------------------------------------------------------------- C17 *)
-Theorem C17_duplicate_rejected_tree : forall t p h mws ms n m, tree_pat_ok t ->
+Theorem C17_duplicate_rejected_tree_l : forall t p h mws ms n m, tree_pat_ok t ->
   find (tree_fuel t + length p + 2) (troot t) p = Some n -> ahas m (nhandlers n) = true ->
   In m (match ms with [] => any_methods | _ => ms end) ->
   exists e, tree_add t p h mws ms = Err e \/ tree_add t p h mws ms = Unsup.
@@ -498,12 +509,12 @@ Proof.
   - exists []. now right.
 Qed.
 
-Theorem C17_rejected_add_is_noop : forall t p h mws ms e,
+Theorem C17_rejected_add_is_noop_l : forall t p h mws ms e,
   tree_add t p h mws ms = Err e -> keep t (tree_add t p h mws ms) = t.
 Proof. intros t p h mws ms e H. now rewrite H. Qed.
 
 (* ---------------------------------------------------------------- C10 : strict URL *)
-Theorem C10_strict_requires_live : forall t p ps u, tree_url t p ps = Ok u ->
+Theorem C10_strict_requires_live_l : forall t p ps u, tree_url t p ps = Ok u ->
   exists chain n, find_chain (tree_fuel t) (troot t) p = Some chain /\
     last chain (troot t) = n /\ nhandlers n <> [].
 Proof.
@@ -513,25 +524,25 @@ Proof.
   intro E. unfold nsize in H. rewrite E in H. discriminate H.
 Qed.
 
-Theorem C10_strict_not_live : forall t p ps, tree_pat_ok t ->
+Theorem C10_strict_not_live_l : forall t p ps, tree_pat_ok t ->
   (forall n, desc (troot t) n -> npat n = p -> nhandlers n = []) ->
   (height (troot t) <= tree_fuel t)%nat ->
   exists e, tree_url t p ps = Err e.
 Proof.
   intros t p ps [Ha Hroot] Hdead _. unfold tree_url.
   destruct (find_chain (tree_fuel t) (troot t) p) as [chain|] eqn:F; [|now eexists].
-  destruct (C10_find_chain_sound _ _ _ _ Ha F) as [_ [_ [D P]]].
+  destruct (C10_find_chain_sound_l _ _ _ _ Ha F) as [_ [_ [D P]]].
   rewrite Hroot in P. cbn [app] in P.
   unfold nsize. rewrite (Hdead _ D P). cbn [length Nat.eqb]. now eexists.
 Qed.
 
 (* the converse direction: a live route is found (completeness of [find_chain]) *)
-Theorem C10_live_is_found : forall t n, tree_pat_ok t -> desc (troot t) n ->
+Theorem C10_live_is_found_l : forall t n, tree_pat_ok t -> desc (troot t) n ->
   exists chain, find_chain (tree_fuel t) (troot t) (npat n) = Some chain /\
     npat (last chain (troot t)) = npat n.
 Proof.
   intros t n [Ha Hroot] D.
-  destruct (C10_find_chain_complete (tree_fuel t) _ _ Ha (Nat.le_succ_diag_r _) D) as [chain [F P]].
+  destruct (C10_find_chain_complete_l (tree_fuel t) _ _ Ha (Nat.le_succ_diag_r _) D) as [chain [F P]].
   rewrite Hroot in F. cbn [length skipn] in F. exists chain. now split.
 Qed.
 
@@ -579,7 +590,7 @@ Proof.
   exact (Hgo _ _ H).
 Qed.
 
-Theorem C03_remove_effect : forall fuel trace ms n p n' rm,
+Theorem C03_remove_effect_l : forall fuel trace ms n p n' rm,
   remove_in fuel trace ms n p = Ok (Some (n', rm)) ->
   exists r, find fuel n p = Some r /\ rm = snd (remove_at_node trace ms r) /\
     one_changed r (fst (remove_at_node trace ms r)) n n'.
@@ -633,7 +644,7 @@ Definition same_data (d0 d : node) : Prop :=
 Lemma same_data_set_children : forall n c ix, same_data n (set_children n c ix).
 Proof. intros [s p i h x c0] c ix. repeat split. Qed.
 
-Theorem C03_remove_others_kept : forall r r' n n', nchildren r' = nchildren r ->
+Theorem C03_remove_others_kept_l : forall r r' n n', nchildren r' = nchildren r ->
   one_changed r r' n n' ->
   forall d, desc n' d -> d = r' \/ exists d0, desc n d0 /\ same_data d0 d.
 Proof.
@@ -764,22 +775,22 @@ Definition dead_is (p : bytes) (d : node) : bool := beqb (npat d) p && is_nil (n
 (* at most one node below [n] spells [p] *)
 Definition pattern_once (p : bytes) (n : node) : Prop := (cnt (pat_is p) n <= 1)%nat.
 
-Theorem C03_absent_not_found : forall t p, tree_pat_ok t ->
+Theorem C03_absent_not_found_l : forall t p, tree_pat_ok t ->
   find (tree_fuel t) (troot t) p = None -> forall n, desc (troot t) n -> npat n <> p.
 Proof.
   intros t p [Ha Hroot] F n D E.
-  destruct (C03_find_complete (tree_fuel t) _ _ Ha (Nat.le_succ_diag_r _) D) as [r' [F' _]].
+  destruct (C03_find_complete_l (tree_fuel t) _ _ Ha (Nat.le_succ_diag_r _) D) as [r' [F' _]].
   rewrite Hroot, E in F'. cbn [length skipn] in F'. rewrite F in F'. discriminate F'.
 Qed.
 
-Theorem C03_remove_all_clears_partial : forall t p t', tree_pat_ok t -> pattern_once p (troot t) ->
+Theorem C03_remove_all_clears_partial_l : forall t p t', tree_pat_ok t -> pattern_once p (troot t) ->
   tree_remove t p [] = Ok t' ->
   forall n, desc (troot t') n -> npat n = p -> nhandlers n = [].
 Proof.
   intros t p t' Hpat Honce H n D Ep. pose proof Hpat as [Ha Hroot].
   unfold tree_remove in H. res_step H. destruct x as [[root' removed]|]; injection H as <-.
-  - destruct (C03_remove_effect _ _ _ _ _ _ _ E) as [r [F [_ OC]]].
-    destruct (C03_find_sound _ _ _ _ Ha F) as [Dr Pr]. rewrite Hroot in Pr. cbn [app] in Pr.
+  - destruct (C03_remove_effect_l _ _ _ _ _ _ _ E) as [r [F [_ OC]]].
+    destruct (C03_find_sound_l _ _ _ _ Ha F) as [Dr Pr]. rewrite Hroot in Pr. cbn [app] in Pr.
     unfold remove_at_node in OC. cbn [fst] in OC.
     set (r' := set_handlers r [] (node_midx (has_trace t) [])) in OC.
     set (X := live_is p).
@@ -805,7 +816,7 @@ Proof.
     pose proof (cnt_zero_desc X _ _ Hz D) as Xn. unfold X, live_is in Xn.
     rewrite Ep, beqb_refl in Xn. cbn [andb] in Xn.
     destruct (nhandlers n); [reflexivity | discriminate Xn].
-  - exfalso. exact (C03_absent_not_found t p Hpat (remove_in_none _ _ _ _ _ E) n D Ep).
+  - exfalso. exact (C03_absent_not_found_l t p Hpat (remove_in_none _ _ _ _ _ E) n D Ep).
 Qed.
 
 (* ---------------------------------------------------------------- when the pattern occurs once,
@@ -842,7 +853,7 @@ Proof.
   - pose proof (cnts_In X _ _ (In_remove_nth_other _ _ i j cb Nj Hne)). lia.
 Qed.
 
-Theorem C03_pattern_once_unique : forall p n a b, pattern_once p n ->
+Theorem C03_pattern_once_unique_l : forall p n a b, pattern_once p n ->
   desc n a -> desc n b -> npat a = p -> npat b = p -> a = b.
 Proof.
   intros p n a b H Da Db Ea Eb.
@@ -852,7 +863,7 @@ Qed.
 
 (* registered is reachable: after a successful registration [find] returns a node spelling the
    pattern; when the pattern occurs once in the new tree it is the node carrying the methods *)
-Theorem C03_add_then_find : forall t p h mws ms t', tree_pat_ok t -> tree_hs_ok t ->
+Theorem C03_add_then_find_l : forall t p h mws ms t', tree_pat_ok t -> tree_hs_ok t ->
   tree_add t p h mws ms = Ok t' ->
   exists n, find (tree_fuel t') (troot t') p = Some n /\ npat n = p /\
     (pattern_once p (troot t') ->
@@ -860,28 +871,28 @@ Theorem C03_add_then_find : forall t p h mws ms t', tree_pat_ok t -> tree_hs_ok 
      ahas OPTIONS (nhandlers n) = true /\ ahas M405 (nhandlers n) = true).
 Proof.
   intros t p h mws ms t' Hpat Hhs H.
-  destruct (C03_add_registers _ _ _ _ _ _ Hpat Hhs H) as [d [D [Pd Rd]]].
+  destruct (C03_add_registers_l _ _ _ _ _ _ Hpat Hhs H) as [d [D [Pd Rd]]].
   pose proof (pat_add _ _ _ _ _ _ Hpat H) as [Ha' Hroot'].
-  destruct (C03_find_complete (tree_fuel t') _ _ Ha' (Nat.le_succ_diag_r _) D) as [n [F Pn]].
+  destruct (C03_find_complete_l (tree_fuel t') _ _ Ha' (Nat.le_succ_diag_r _) D) as [n [F Pn]].
   rewrite Hroot', Pd in F. cbn [length skipn] in F.
   exists n. split; [exact F|]. split; [now rewrite Pn|].
-  intro Honce. destruct (C03_find_sound _ _ _ _ Ha' F) as [Dn _].
-  rewrite (C03_pattern_once_unique p _ n d Honce Dn D); [exact Rd | now rewrite Pn | exact Pd].
+  intro Honce. destruct (C03_find_sound_l _ _ _ _ Ha' F) as [Dn _].
+  rewrite (C03_pattern_once_unique_l p _ n d Honce Dn D); [exact Rd | now rewrite Pn | exact Pd].
 Qed.
 
 (* a duplicate is rejected, stated on the nodes of the tree instead of the result of [find] *)
-Theorem C17_duplicate_rejected_unique : forall t p h mws ms n m, tree_pat_ok t ->
+Theorem C17_duplicate_rejected_unique_l : forall t p h mws ms n m, tree_pat_ok t ->
   pattern_once p (troot t) -> desc (troot t) n -> npat n = p -> ahas m (nhandlers n) = true ->
   In m (match ms with [] => any_methods | _ => ms end) ->
   exists e, tree_add t p h mws ms = Err e \/ tree_add t p h mws ms = Unsup.
 Proof.
   intros t p h mws ms n m Hpat Honce D Pn Hm Hin. pose proof Hpat as [Ha Hroot].
   assert (Hh : (height (troot t) <= tree_fuel t + length p + 2)%nat) by (unfold tree_fuel; lia).
-  destruct (C03_find_complete _ _ _ Ha Hh D) as [n' [F Pn']].
+  destruct (C03_find_complete_l _ _ _ Ha Hh D) as [n' [F Pn']].
   rewrite Hroot, Pn in F. cbn [length skipn] in F.
-  destruct (C03_find_sound _ _ _ _ Ha F) as [Dn' _].
-  rewrite (C03_pattern_once_unique p _ n' n Honce Dn' D) in F; [|now rewrite Pn' | exact Pn].
-  exact (C17_duplicate_rejected_tree t p h mws ms n m Hpat F Hm Hin).
+  destruct (C03_find_sound_l _ _ _ _ Ha F) as [Dn' _].
+  rewrite (C03_pattern_once_unique_l p _ n' n Honce Dn' D) in F; [|now rewrite Pn' | exact Pn].
+  exact (C17_duplicate_rejected_tree_l t p h mws ms n m Hpat F Hm Hin).
 Qed.
 
 (* ---------------------------------------------------------------- every reachable tree *)
@@ -897,7 +908,7 @@ Proof.
   - now apply pat_use.
 Qed.
 
-Theorem C03_pat_reachable : forall name ic trace hist,
+Theorem C03_pat_reachable_l : forall name ic trace hist,
   tree_pat_ok (fold_left tstep hist (new_tree name ic trace)).
 Proof.
   intros name ic trace hist. generalize (pat_new_tree name ic trace).
@@ -906,19 +917,144 @@ Proof.
 Qed.
 
 (* [find] on every reachable tree: exactly the nodes by pattern text *)
-Theorem C03_find_reachable : forall name ic trace hist p,
+Theorem C03_find_reachable_l : forall name ic trace hist p,
   let t := fold_left tstep hist (new_tree name ic trace) in
   (forall r, find (tree_fuel t) (troot t) p = Some r -> desc (troot t) r /\ npat r = p) /\
   (forall r, desc (troot t) r -> npat r = p ->
      exists r', find (tree_fuel t) (troot t) p = Some r' /\ npat r' = p).
 Proof.
-  intros name ic trace hist p t. destruct (C03_pat_reachable name ic trace hist) as [Ha Hroot].
+  intros name ic trace hist p t. destruct (C03_pat_reachable_l name ic trace hist) as [Ha Hroot].
   fold t in Ha, Hroot. split.
-  - intros r F. destruct (C03_find_sound _ _ _ _ Ha F) as [D P]. rewrite Hroot in P. now split.
+  - intros r F. destruct (C03_find_sound_l _ _ _ _ Ha F) as [D P]. rewrite Hroot in P. now split.
   - intros r D P.
-    destruct (C03_find_complete (tree_fuel t) _ _ Ha (Nat.le_succ_diag_r _) D) as [r' [F P']].
+    destruct (C03_find_complete_l (tree_fuel t) _ _ Ha (Nat.le_succ_diag_r _) D) as [r' [F P']].
     rewrite Hroot, P in F. cbn [length skipn] in F. exists r'. split; [exact F | now rewrite P'].
 Qed.
+
+(* ================================================================ Part B : uniqueness is FALSE
+   Two nodes with the same pattern text can exist in a reachable tree, both can carry handlers,
+   a duplicate pattern+method is then accepted, and a removal leaves the route alive.
+   The history: "/{a" (a literal: no closing brace), then "/{a{b}x" and "/{a{c}y".  The two
+   parameter labels "{a{b}x" / "{a{c}y" differ inside the braces, longestPrefix answers the
+   position of the LAST '{' seen (2), the node is split into the literal "{a" + "{b}x", and the
+   new literal "{a" becomes a sibling of the old literal "{a" (literal vs parameter: similarity 0
+   when the second pattern was added). *)
+Definition cx_p : bytes := bs "/{a".
+Definition cx_hist3 : list top :=
+  [OAdd cx_p (HUser (bs "h1")) [] [GET];
+   OAdd (bs "/{a{b}x") (HUser (bs "h2")) [] [GET];
+   OAdd (bs "/{a{c}y") (HUser (bs "h3")) [] [GET]].
+Definition cx_hist4 : list top := cx_hist3 ++ [OAdd cx_p (HUser (bs "h4")) [] [GET]].
+(* notations, so that the instances of the quantified statements below match syntactically *)
+Notation cx_tree3 := (fold_left tstep cx_hist3 (new_tree (bs "r") [] false)).
+Notation cx_tree4 := (fold_left tstep cx_hist4 (new_tree (bs "r") [] false)).
+Definition cx_tree5 : tree := keep cx_tree4 (tree_remove cx_tree4 cx_p []).
+
+(* the node "/" and its first two children, in a tree *)
+Definition cx_slash (t : tree) : node := nth 0 (nchildren (troot t)) (troot t).
+Definition cx_first (t : tree) : node := nth 0 (nchildren (cx_slash t)) (troot t).
+Definition cx_second (t : tree) : node := nth 1 (nchildren (cx_slash t)) (troot t).
+
+Lemma cx_desc : forall t, (0 < length (nchildren (troot t)))%nat ->
+  (1 < length (nchildren (cx_slash t)))%nat ->
+  desc (troot t) (cx_first t) /\ desc (troot t) (cx_second t).
+Proof.
+  intros t H0 H1. assert (Is : In (cx_slash t) (nchildren (troot t))) by (now apply nth_In).
+  split; apply (desc_step _ (cx_slash t)); try exact Is; apply desc_child; apply nth_In; lia.
+Qed.
+
+Example cx_two_nodes_one_pattern :
+  npat (cx_first cx_tree3) = cx_p /\ npat (cx_second cx_tree3) = cx_p /\
+  nhandlers (cx_first cx_tree3) = [] /\ ahas GET (nhandlers (cx_second cx_tree3)) = true /\
+  cnt (pat_is cx_p) (troot cx_tree3) = 2%nat.
+Proof. vm_compute. repeat split. Qed.
+
+Theorem C03_pattern_once_refuted_l :
+  ~ (forall name ic trace hist p, pattern_once p (troot (fold_left tstep hist (new_tree name ic trace)))).
+Proof.
+  intro H. specialize (H (bs "r") [] false cx_hist3 cx_p). unfold pattern_once in H.
+  vm_compute in H. lia.
+Qed.
+
+Theorem C03_pattern_unique_refuted_l :
+  ~ (forall name ic trace hist n1 n2, let t := fold_left tstep hist (new_tree name ic trace) in
+       desc (troot t) n1 -> desc (troot t) n2 -> npat n1 = npat n2 ->
+       nhandlers n1 <> [] -> nhandlers n2 <> [] ->
+       nhandlers n1 = nhandlers n2 /\ nmidx n1 = nmidx n2).
+Proof.
+  intro H.
+  assert (D : desc (troot cx_tree4) (cx_first cx_tree4) /\ desc (troot cx_tree4) (cx_second cx_tree4))
+    by (apply cx_desc; vm_compute; lia).
+  destruct D as [D1 D2].
+  assert (E : npat (cx_first cx_tree4) = npat (cx_second cx_tree4)) by (vm_compute; reflexivity).
+  assert (N1 : nhandlers (cx_first cx_tree4) <> []) by (vm_compute; discriminate).
+  assert (N2 : nhandlers (cx_second cx_tree4) <> []) by (vm_compute; discriminate).
+  pose proof (H (bs "r") [] false cx_hist4 (cx_first cx_tree4) (cx_second cx_tree4)) as G.
+  cbv zeta in G.
+  destruct (G D1 D2 E N1 N2) as [Hh _]. vm_compute in Hh. discriminate Hh.
+Qed.
+
+(* C17 by pattern: a node spelling the pattern already answers GET, the registration is accepted *)
+Theorem C17_duplicate_by_pattern_refuted_l :
+  ~ (forall name ic trace hist p h mws m n, let t := fold_left tstep hist (new_tree name ic trace) in
+       desc (troot t) n -> npat n = p -> ahas m (nhandlers n) = true ->
+       exists e, tree_add t p h mws [m] = Err e \/ tree_add t p h mws [m] = Unsup).
+Proof.
+  intro H.
+  assert (D : desc (troot cx_tree3) (cx_first cx_tree3) /\ desc (troot cx_tree3) (cx_second cx_tree3))
+    by (apply cx_desc; vm_compute; lia).
+  destruct D as [_ D2].
+  assert (E : npat (cx_second cx_tree3) = cx_p) by (vm_compute; reflexivity).
+  assert (G : ahas GET (nhandlers (cx_second cx_tree3)) = true) by (vm_compute; reflexivity).
+  pose proof (H (bs "r") [] false cx_hist3 cx_p (HUser (bs "h4")) [] GET (cx_second cx_tree3)) as K.
+  cbv zeta in K.
+  destruct (K D2 E G) as [e [He|He]]; vm_compute in He; discriminate He.
+Qed.
+
+(* C03 by pattern: "/{a" is removed with every method, a node spelling "/{a" still answers GET *)
+Lemma cx_remove_ok : tree_remove cx_tree4 cx_p [] = Ok cx_tree5.
+Proof.
+  unfold cx_tree5. destruct (tree_remove cx_tree4 cx_p []) as [t'| | |] eqn:E;
+    [reflexivity | vm_compute in E; discriminate E ..].
+Qed.
+
+Theorem C03_remove_all_clears_refuted_l :
+  ~ (forall name ic trace hist p t', let t := fold_left tstep hist (new_tree name ic trace) in
+       tree_remove t p [] = Ok t' -> forall n, desc (troot t') n -> npat n = p -> nhandlers n = []).
+Proof.
+  intro H.
+  assert (D : desc (troot cx_tree5) (cx_first cx_tree5) /\ desc (troot cx_tree5) (cx_second cx_tree5))
+    by (apply cx_desc; vm_compute; lia).
+  destruct D as [_ D2].
+  assert (E : npat (cx_second cx_tree5) = cx_p) by (vm_compute; reflexivity).
+  pose proof cx_remove_ok as R.
+  pose proof (H (bs "r") [] false cx_hist4 cx_p cx_tree5) as K.
+  cbv zeta in K.
+  pose proof (K R _ D2 E) as Hn. vm_compute in Hn. discriminate Hn.
+Qed.
+
+(* what a client sees: the second registration of GET "/{a" wins, the removal of "/{a" brings
+   the first one back *)
+Example cx_dispatch :
+  (match tree_handler cx_tree3 GET cx_p [] with HFound true (Some _) h _ => h = HUser (bs "h1") | _ => False end) /\
+  (match tree_handler cx_tree4 GET cx_p [] with HFound true (Some _) h _ => h = HUser (bs "h4") | _ => False end) /\
+  (match tree_handler cx_tree5 GET cx_p [] with HFound true (Some _) h _ => h = HUser (bs "h1") | _ => False end).
+Proof. vm_compute. repeat split. Qed.
+
+(* a second history, all of whose patterns pass TreeNames.pat_wf (no second '{' in a piece): a
+   literal '}' makes longestPrefix answer "nothing in common" for "/}a}" and "/}ba", they stay
+   siblings, "//" splits the first one at "/", and "/a" (similarity 1 with both "/}ba" and "/",
+   the first one wins) splits the second one at "/" as well: two nodes "/".  None of the four
+   patterns is well-formed for Spec/Table.v ([tokens] refuses a '}' in literal text). *)
+Definition cx2_pats : list bytes := [bs "/}a}"; bs "/}ba{"; bs "//"; bs "/a"].
+Definition cx2_hist : list top := map (fun p => OAdd p (HUser (bs "h")) [] [GET]) cx2_pats.
+
+Example cx2_two_nodes :
+  forallb TreeNames.pat_wf cx2_pats = true /\
+  cnt (pat_is (bs "/")) (troot (fold_left tstep cx2_hist (new_tree (bs "r") [] false))) = 2%nat /\
+  map (fun p => match Table.tokens p with Some _ => true | None => false end) (cx_p :: bs "/{a{b}x" :: cx2_pats)
+    = [false; false; false; false; true; true].
+Proof. vm_compute. repeat split. Qed.
 
 (* ================================================================ examples *)
 Definition exf_hist : list top :=
